@@ -232,6 +232,11 @@ class Circuit:
         Returns:
             array[complex]: The state after application of the two-mode operation
         """
+        if modes[0] > modes[1]:
+            # the index gymnastics below assume ascending modes: exchange the roles
+            # of the two modes in the operator instead
+            return self.apply_twomode_gate(mat.transpose((2, 3, 0, 1)), [modes[1], modes[0]], gate)
+
         if self._pure:
             t1 = modes[0]
             t2 = modes[1]
